@@ -27,15 +27,28 @@ Proof.
   repeat match goal with |- context[if ?b then _ else _] => destruct b end; try lia; apply wrap64_nonneg.
 Qed.
 
+Lemma modexp_gas_nonneg : forall input n, modexp_gas input = Ok n -> 0 <= n.
+Proof.
+  intros input n H. unfold modexp_gas in H.
+  destruct (modexp_header input) as [[[[bl el] ml] rest]|?|]; try discriminate.
+  match type of H with match ?x with _ => _ end = _ => destruct x as [eh|?|]; try discriminate end.
+  injection H as <-. destruct (BitLen _ >? 64); [rewrite maxU64_val; lia | apply big_Uint64_nonneg].
+Qed.
+
 Lemma run_precompile_good : forall e w a input gas rd tr B, 0 <= gas ->
   out_good (run_precompile e w a input gas rd tr) gas B tr.
 Proof.
-  intros e w a input gas rd tr B Hg. unfold run_precompile, out_good.
-  destruct (e_precomp e a input) as [[og result]|]; [|cbn; repeat split; try lia; try discriminate; auto].
-  pose proof (precompile_gas_nonneg a input og) as Hn.
-  destruct (gas <? precompile_gas a input og) eqn:Hlt; [cbn; repeat split; try lia; try discriminate; auto|].
-  destruct (a =? 4); [cbn; repeat split; try lia; try discriminate; auto|].
-  destruct result; cbn; repeat split; try lia; try discriminate; auto.
+  intros e w a input gas rd tr B Hg. unfold run_precompile.
+  destruct (a =? 5).
+  - destruct (modexp_gas input) as [need|?|] eqn:Hm; [|og|og].
+    apply modexp_gas_nonneg in Hm.
+    destruct (gas <? need) eqn:Hlt; [og|]. destruct (modexp_run input); og.
+  - unfold out_good.
+    destruct (e_precomp e a input) as [[og' result]|]; [|cbn; repeat split; try lia; try discriminate; auto].
+    pose proof (precompile_gas_nonneg a input og') as Hn.
+    destruct (gas <? precompile_gas a input og') eqn:Hlt; [cbn; repeat split; try lia; try discriminate; auto|].
+    destruct (a =? 4); [cbn; repeat split; try lia; try discriminate; auto|].
+    destruct result; cbn; repeat split; try lia; try discriminate; auto.
 Qed.
 
 Lemma run_contract_good : forall rec e w ca fr rd B, rec_good rec B ->
